@@ -727,6 +727,12 @@ class AbsEval(ConstEval):
                 raise AbsRaise("AssertionError")
             return
         if isinstance(s, ast.Try):
+            import builtins as _bi
+            for h in s.handlers:
+                for x in ((h.type.elts if isinstance(h.type, ast.Tuple) else [h.type]) if h.type is not None else []):
+                    if isinstance(x, ast.Name) and not hasattr(_bi, x.id) and x.id not in self.M.imports.get(mod, {}) and (mod, x.id) not in self.M.classes:
+                        # a name that is neither a built-in exception, nor imported, nor a class of the module (e.g. a computed tuple of classes): which exceptions it catches is not known
+                        raise NotConstant(f"except clause names `{x.id}`, which the interpreter cannot resolve to exception classes")
             hn = tuple(n_ for h in s.handlers for n_ in ([ast.unparse(x).split(".")[-1] for x in (h.type.elts if isinstance(h.type, ast.Tuple) else [h.type])] if h.type is not None else ["BaseException"]))
             stack = self.__dict__.setdefault("try_stack", [])
             stack.append(hn)
